@@ -305,7 +305,40 @@ def r10_5(run):
     run.ob('R10.5', sc_, sc_.node, '_save_completed empties the pending set', ok, slot='completed-clears', message='_save_completed no longer clears unsaved')
 
 
+def r10_6(run):
+    """in-place tracking relies on unsaved[name] *being* the list object config[name] holds: save()
+    must store the pending list itself, never a copy or a re-wrapped list"""
+    sv, loop, key, value = _save_loop(run)
+    g = cfg_of(sv)
+    outer = [n for n in g.live if n.kind == 'iter' and n.ast is loop][0]
+    k = 0
+    for n in g.real_nodes():
+        if n.kind != 'stmt' or not isinstance(n.ast, ast.Assign) or assign_to(n.ast, value) is None:
+            continue
+        if not any(n.ast is a for a in ast.walk(loop)):
+            continue
+        k += 1
+        # is this redefinition reachable with the pending value being a list?
+        gd = g.guarded_by(n, lambda t: isinstance(t, ast.Call) and dotted(t.func) == 'isinstance' and dotted(t.args[0]) == value and dotted(t.args[1]) == 'list')
+        on_list_leg = False
+        for t, lab in gd:
+            # the isinstance test must look at the loop variable itself (no earlier redefinition)
+            rds = reaching_defs(g, t, value)
+            if lab == 'T' and all(r is outer for r in rds):
+                on_list_leg = True
+        run.ob('R10.6', sv, n.ast, 'a pending list object is stored as-is (identity kept between unsaved and config)', not on_list_leg, slot='list-identity',
+               message='save() replaces a pending list by %s before storing it: the object in config is no longer the one in '
+                       'unsaved, so after a rejected SETCONF further in-place edits go to the copy and are lost on retry' % src(n.ast.value)[:60])
+    run.floor('R10.6', 'redefinitions of the pending value in save', k, 1)
+    # and the store itself uses that variable
+    st = [n for n in walk_unit(sv) if isinstance(n, ast.Assign) and isinstance(n.targets[0], ast.Subscript) and dotted(n.targets[0].value) == 'self.config'
+          and any(n is a for a in ast.walk(loop))]
+    ok = bool(st) and all(dotted(s_.value) == value for s_ in st)
+    run.ob('R10.6', sv, sv.node, 'the current value becomes the pending value object', ok, slot='store-value', message='save stores %s' % [src(s_.value) for s_ in st])
+
+
 RULES = [
+    ('R10.6', 'identity flow: the pending list object itself becomes the current value (no copy / re-wrap on the list leg)', r10_6),
     ('R10.1', 'effect analysis on the call graph: nothing reachable from attribute access / list wrappers sends a command', r10_1),
     ('R10.2', 'tracked mutators: the six list mutators are wrapped; wrapper calls on_modify and the original once; mark_unsaved aliases the live list', r10_2),
     ('R10.3', 'path enumeration of the emission region of save (loop bound incl. 0 iterations): scalar once, list once per element in order, empty list still emitted', r10_3),
